@@ -122,9 +122,20 @@ where
             // The move would either not change the imbalance, or increase it.
             break;
         }
+        let new_overweight_load = part_loads[overweight_part] - nearest_weight;
+        let mut new_underweight_load = part_loads[underweight_part];
+        new_underweight_load += nearest_weight;
+        if !(new_overweight_load < part_loads[overweight_part]
+            && new_underweight_load < part_loads[overweight_part])
+        {
+            // With rounded (floating-point) loads the test above can pass although
+            // the move does not bring both parts strictly below the current maximum;
+            // accepting it can make the same weight go back and forth forever.
+            break;
+        }
         partition[id] = underweight_part;
-        part_loads[overweight_part] = part_loads[overweight_part] - nearest_weight;
-        part_loads[underweight_part] += nearest_weight;
+        part_loads[overweight_part] = new_overweight_load;
+        part_loads[underweight_part] = new_underweight_load;
 
         algo_iterations += 1;
     }
